@@ -420,3 +420,86 @@ def oracle_pis(kind, shape, p):
         if reg == "in":
             res = "T"
     return res
+
+
+# ----------------------------------------------------------------------------- structured random elements
+
+def rand_coords(r, k, mag, special=0.0):
+    """k vertices as a flat list; with probability `special` a coordinate is nan/inf/-inf"""
+    out = []
+    for _ in range(2 * k):
+        if special and r.random() < special:
+            out.append(r.choice((float("nan"), float("inf"), float("-inf"))))
+        else:
+            out.append(r.randint(-mag, mag))
+    return out
+
+
+def rand_ring(r, k, mag, closed=True):
+    """ring with k distinct-ish vertices (k may be 0..): closed by repeating the first vertex"""
+    c = rand_coords(r, k, mag)
+    if closed and k >= 1:
+        c = c + c[:2]
+    return c
+
+
+def structured_elements(kind, r, n, mag=20, special=0.0, closed=True):
+    """n elements of `kind`: every nesting level may be empty, rings may have < 3 vertices, collinear
+    runs and repeated vertices occur, missing elements are sprinkled in"""
+    out = []
+    for _ in range(n):
+        u = r.random()
+        if u < 0.12:
+            out.append(None); continue
+        if kind == "point":
+            out.append(rand_coords(r, 1, mag, special) if u > 0.17 else [float("nan"), float("nan")])
+        elif kind in ("multipoint", "line"):
+            out.append(rand_coords(r, r.choice((0, 1, 1, 2, 3, 5)), mag, special))
+        elif kind == "ring":
+            out.append(rand_ring(r, r.choice((0, 1, 2, 3, 4, 6)), mag))
+        elif kind == "multiline":
+            out.append([rand_coords(r, r.choice((0, 1, 2, 3, 4)), mag, special) for _ in range(r.choice((0, 1, 1, 2, 3)))])
+        elif kind == "polygon":
+            out.append([_maybe_collinear(r, rand_ring(r, r.choice((0, 1, 2, 3, 4, 5)), mag, closed)) for _ in range(r.choice((0, 1, 1, 2, 3)))])
+        else:
+            out.append([[_maybe_collinear(r, rand_ring(r, r.choice((0, 2, 3, 4, 5)), mag, closed)) for _ in range(r.choice((0, 1, 2, 3)))]
+                        for _ in range(r.choice((0, 1, 1, 2, 3)))])
+    return out
+
+
+def _maybe_collinear(r, ring):
+    """sometimes replace a ring by a zero-area (collinear) closed ring"""
+    if len(ring) >= 8 and r.random() < 0.15:
+        k = len(ring) // 2 - 1
+        x0, y0 = ring[0], ring[1]
+        pts = [(x0 + i * 2, y0 + i) for i in range(k)]
+        pts.append(pts[0])
+        return flat(pts)
+    return ring
+
+
+def derive(arr, els, r, steps=2):
+    """apply a random sequence of derivation steps to (array, expected elements): slice, take, mask, concat, copy"""
+    import numpy as np
+    cls = type(arr)
+    hist = []
+    for _ in range(steps):
+        n = len(els)
+        op = r.choice(("slice", "take", "mask", "concat", "copy", "step"))
+        if op == "slice" and n:
+            a = r.randrange(0, n); b = r.randrange(a, n + 1)
+            arr, els = arr[a:b], els[a:b]; hist.append(f"[{a}:{b}]")
+        elif op == "take" and n:
+            idx = [r.randrange(-n, n) for _ in range(r.randrange(0, n + 2))]
+            arr, els = arr.take(idx), [els[i] for i in idx]; hist.append(f"take{idx}")
+        elif op == "mask" and n:
+            m = np.array([r.random() < 0.6 for _ in range(n)])
+            arr, els = arr[m], [e for e, k in zip(els, m) if k]; hist.append("mask")
+        elif op == "concat":
+            arr, els = cls._concat_same_type([arr, arr[::-1] if n else arr]), els + els[::-1]; hist.append("concat(rev)")
+        elif op == "step" and n:
+            s = r.choice((-1, 2, -2, 3))
+            arr, els = arr[::s], els[::s]; hist.append(f"[::{s}]")
+        else:
+            arr = arr.copy(); hist.append("copy")
+    return arr, els, hist
